@@ -46,6 +46,10 @@
 (*   FailedStartStopsExactlyStarted, FailingStopDoesNotPreventOthers,      *)
 (*   OriginalErrorReachesCaller.                                           *)
 (*                                                                         *)
+(* Not modelled: children created and retired during evaluation (map_,     *)
+(* switch_, reduce) and the real-time loop; those are covered by level A   *)
+(* trace validation only (LifeTrace.tla on check_life's scenarios).        *)
+(*                                                                         *)
 (* Fault = "none" is the code as it is.  Named slips, each of which TLC    *)
 (* must reject:                                                            *)
 (*   "fwdrollback"   the rollback walks the started nodes 0..k-1 instead   *)
